@@ -31,7 +31,7 @@ CFG = {
                     "relative timing is only biased by delays, not owned: instruction-level interleavings of the thread epilogue against join are sampled",
                     "a failing allocator mmap inside spawn is outside the quantifier (stack mmap and clone only) and is not injected",
                     "for a spawn whose creation was made to fail any Err is accepted; Ok(handle) is accepted when join returns and the closure ran at most once"],
-    "required_classes": ["reuse:join-state-reusable-while-the-dropped-thread-is-finishing", "epilogue:join-called-while-the-thread-sleeps-in-its-epilogue", "join:spurious-wake-delivered-to-parked-joiner", "spurious:spurious-wake-delivered-to-parked-joiner", "join:panic-joined-none", "join:panic-joined-none:niche-carrying-result", "join:niche-carrying-result", "join:over-aligned-result", "join:zero-sized-result", "join:4KiB-result", "join:heap-owning-result",
+    "required_classes": ["print-join:panicked-thread-joined-inside-a-print-statement", "reuse:join-state-reusable-while-the-dropped-thread-is-finishing", "epilogue:join-called-while-the-thread-sleeps-in-its-epilogue", "join:spurious-wake-delivered-to-parked-joiner", "spurious:spurious-wake-delivered-to-parked-joiner", "join:panic-joined-none", "join:panic-joined-none:niche-carrying-result", "join:niche-carrying-result", "join:over-aligned-result", "join:zero-sized-result", "join:4KiB-result", "join:heap-owning-result",
                          "join:two-or-more-threads-live", "join:handle-dropped", "join-strace:join-before-finish(futex wait entered)",
                          "join-strace:join-after-finish(no futex wait)", "fault:inject clone EAGAIN", "fault:inject clone ENOMEM", "fault:inject stack-mmap ENOMEM",
                          "fault:stack-mmap-failure-spawn-err", "fault:clone-failure-spawn-err", "fault-min:clone-failure-spawn-err"],
